@@ -125,9 +125,10 @@ func (fc *FnCtx) queryEnc(ob *Obligation, enc int, withModel bool, extra []strin
 		syms := make([][]string, len(fc.globals))
 		kept := make([]bool, len(fc.globals))
 		have := map[string]bool{}
-		present := func(sy string) bool {
-			return have[sy] || strings.Contains(text, sy+" ") || strings.Contains(text, sy+")")
+		for _, sy := range valueSymRe.FindAllString(text, -1) {
+			have[sy] = true
 		}
+		present := func(sy string) bool { return have[sy] }
 		for i, a := range fc.globals {
 			syms[i] = valueSymRe.FindAllString(a, -1)
 			if len(syms[i]) == 0 || os.Getenv("GOVC_NOSLICE") != "" {
